@@ -86,6 +86,11 @@ pub fn catalogue() -> Vec<Entry> {
         pipe("stack push=1,2 | addone | stack pop=1,2", Generic),
         pipe("stack push=3,4 | helmert x=1 dx=0.5 t_epoch=2000 | stack roll=2,1 | stack flip=1,2 | addone", Generic),
         pipe("push v_1 v_2 | addone | pop v_1 v_2", Generic),
+        // stack traffic addressing dimensions a small container does not store (still consumed / produced)
+        pipe("push v_1 v_2 | pop v_3 v_1", Generic),
+        pipe("push v_3 v_2 | pop v_2 v_1", Generic),
+        pipe("stack push=1,2 | stack pop=3,1", Generic),
+        pipe("stack push=3,4,1 | stack pop=1,2,4", Generic),
         pipe("addone > helmert x=3 s=1000000 < axisswap order=2,1", Generic),
         pipe("cart | helmert x=0.1 dx=0.01 drz=0.001 ds=0.002 t_epoch=2000 convention=position_vector | cart inv", Geo),
         grid("gridshift grids=test.datum", Geo, true),
